@@ -15,11 +15,11 @@ for pid in props:
                 ctx = m.group(1).strip()[:60] if m else ''
                 taken.append('%s [%s]' % (cur, ctx))
     taken = sorted(set(taken))
-    avoid = ("This round asks for a change of one of these kinds: (a) NUMERICS / TYPES - integer instead of float division, an int dtype kept where floats are needed, float equality where a tolerance was, "
-             "a tolerance or constant off by a factor, inf/nan/-0.0/overflow handled differently, precision lost by a needless round-trip through str/repr or float32; "
-             "(b) ORDER dependence - results that come to depend on dict/set iteration order, on the order of keyword arguments, list entries, mask entries or constraint lines, an unstable tie-break, sorted vs unsorted input; "
-             "(c) a broken EQUIVALENCE between two routes the documentation treats as the same - keyword vs positional argument, an explicit argument equal to the documented default vs the default itself, an alias or thin wrapper vs the "
-             "function it wraps, the one-line wrapper vs the class API, a method vs the module-level function behind it. "
+    avoid = ("This round asks for a change of one of these kinds: (a) an INTERACTION of two features that each still work alone - the property fails only when both are in use together "
+             "(e.g. a penalty with a reducer, constraints with a change of ranges, monitors with a restart, a map with an evaluation monitor, a mask with an index, two decorators stacked, a tolerance with a named constant); "
+             "(b) a LIFECYCLE slip - an object used again after it finished or was reset: a second Solve on the same solver, Finalize then Step, clear() then reuse, a monitor or termination object or constraint shared by two users, "
+             "a generator or iterator consumed twice, state that should have been re-initialised and was not (or was, and should not have been); "
+             "(c) a DOCSTRING CONTRACT - something a docstring example, note or documented default of the anchored functions promises explicitly and the existing tests never check. "
              "Earlier rounds already changed these places (do NOT reuse the same edit; a different mechanism nearby is fine): " + ' | '.join(taken) + '.')
     name = 'seed%s%s' % (pid, suffix)
     out = subprocess.run([sys.executable, '/verif/tools/mkprompt.py', pid, name, avoid], capture_output=True, text=True).stdout
